@@ -65,6 +65,7 @@ type FnCtx struct {
 	Ends    int
 	panicOnly bool
 	setLib  bool
+	wordAx  map[string]bool
 }
 
 func (c *FnCtx) declare(name string, sort Sort) Term {
